@@ -14,6 +14,8 @@ THEOREMS = ['C12_dispatch_total', 'C12_error_class', 'C12_multi_range', 'natStr_
 class EK(Exception):
     pass
 
+SPEC_MULTI = ('BI', 'TRI', 'QUAD', 'PEN', 'HEX', 'HEP', 'OCT', 'ENN', 'DEC', 'HEN', 'DOD', 'ICO', 'PENI', 'PENWT')
+
 LOOSE = ['100m', '60m', '400m', '800m', '3000m', 'HM road', 'Mar', 'xc', '3000mW', '100M']
 
 def field(rng):
@@ -57,6 +59,7 @@ def run(ctx):
     lang = [s for s in lang if s.strip() == s and s and s.isascii()]
     events = ['100', '200', '400', '800', '1500', '3000', '5000', '10000', 'MAR', 'HM', 'XC', '5K', '10K', '110H', '400H', '3000SC', '4x100', '4x400',
               'MILE', '60', '60H', 'HJ', 'PV', 'LJ', 'TJ', 'SP', 'DT', 'HT', 'JT', 'WT', 'DEC', 'HEP', 'PEN', '24HR', 'T30', 'H1', 'L3', 'BAL', '5M', '2MT',
+              'BI', 'TRI', 'QUAD', 'HEX', 'OCT', 'ENN', 'HEN', 'DOD', 'ICO', 'PENI', 'PENWT',          # every multi-event code (spec-side list)
               '20KW', 'SLJ', 'OT', 'DT1.5K', '4xSSMR', '4xSMR', '4xSWR', '4xDMR', '4x1500', '3x800', '4x200', '4x1.5K', '2MILE', '1.5M', '3000W', '2000SC'] + LOOSE + rng.sample(lang, min(len(lang), 250 if ctx.quick() else 600))
     n = 400000 if ctx.quick() else 3000000
     # the event's distance from the model (Model/Codes.getDistance: MAR 42195, HM 21098, MILE 1609, SMR 1600, SSMR 800, SWR 1000,
@@ -88,6 +91,17 @@ def run(ctx):
         if prec is None and i % 3 == 0:
             lines.append('pf\tcheck\t%s\t%s\t%s' % (CC.cps(ev), CC.cps(t), CC.cps(g_)))
             expect.append(('ok ' + CC.cps(r)).strip() if st == 'ok' else 'refused')
+        if i % 11 == 0:
+            # the documented positional order (discipline, textvalue, gender, ulpc, errorKlass, prec)
+            try:
+                r3 = athlib.check_performance_for_discipline(ev, t, g_, 1.2, EK, prec); st3 = 'ok'
+            except EK: r3 = None; st3 = 'refused'
+            except Exception as e: r3 = None; st3 = 'leak:' + type(e).__name__
+            stats['positional_calls'] += 1
+            if (st3, r3) != (st, r):
+                ctx.fail('athlib.check_performance_for_discipline', args + ['positional'], 'the answer of the keyword form: %s' % (r if st == 'ok' else st), r3 if st3 == 'ok' else st3,
+                         note='all arguments given positionally (discipline, text, gender, ulpc, errorKlass, prec)',
+                         replay_py='class EK(Exception): pass\ntry:\n    result = athlib.check_performance_for_discipline(%r, %r, %r, 1.2, EK, %r)\nexcept EK:\n    result = "refused (errorKlass)"' % (ev, t, g_, prec))
         if i % 5 == 0:
             # the same entry from another caller: another error class, then the default (ValueError)
             for klass in (EK2, ValueError):
@@ -113,7 +127,7 @@ def run(ctx):
             else:
                 rec = record_of(ev, g_)
                 if rec and float(r) > rec * 1.2 + 0.005: fail('not absurdly beyond the record %.2f' % rec, r, 'field result beyond the record window')
-        elif ev.upper() in codes.MULTI_EVENTS:
+        elif ev.upper() in SPEC_MULTI or ev.upper() in codes.MULTI_EVENTS:
             stats['multi'] += 1
             if not re.match(r'^\d+$', r) or int(r) > 9999: fail('an integer below 10000', r, 'multi-event result out of range')
         else:
